@@ -1399,6 +1399,20 @@ class Ctx:
     def _uf1(self, name, x, axioms):
         if _is_nan_float(x):
             return float("nan")
+        if not isinstance(x.v, Fraction):
+            # an argument that is constant after simplification (0*v, v - v ...) is folded like a literal constant
+            try:
+                xs = z3.simplify(x.v)
+                if z3.is_rational_value(xs):
+                    x = SR(Fraction(xs.numerator_as_long(), xs.denominator_as_long()), x.n)
+                    if name == "exp" and x.v == 0:
+                        return SR(Fraction(1), x.n)
+                    if name == "log" and x.v == 1:
+                        return SR(Fraction(0), x.n)
+                    if name in ("cos", "sin"):
+                        return self._exact_trig(x, name)
+            except z3.Z3Exception:
+                pass
         if isinstance(x.v, Fraction) and name in self._FOLD:
             # a transcendental function of a constant: the double that libm returns, as an exact rational
             try:
@@ -1587,6 +1601,7 @@ class Ctx:
                 if uniq:
                     self.solver.add(kterm == k0)
                     kterm = k0
+                    r = x.v - z3.ToReal(k0) * _rv(pf)     # the returned term carries the constant, not the symbol
             self.result.solver_s += time.time() - t0
             self.result.queries += 2
             self._mods.append((pf, x.v, kterm))
